@@ -205,11 +205,27 @@ func firstLine(s string) string {
 // ---------------------------------------------------------------------------------------------------------
 // documented deviant rules (known-finding classifiers, DESIGN §7)
 
+// Order matters only between explanations of equal size: the rule most specific to the case (path, `{}`, chain
+// length, operator) is tried first, the broadest one (any duration term) last.
 var deviants = []struct {
 	class   string
 	set     func(*Rules)
 	applies func(c *caseSpec) bool
 }{
+	{"complex_path_moves_window_start_to_earliest_found_trace", func(r *Rules) { r.PortionFrom = true }, func(c *caseSpec) bool { return portionsOf(c.Mode) > 0 }},
+
+	{"empty_selector_candidates_preselected_differently_from_span_read", func(r *Rules) { r.EmptyEdge = true }, func(c *caseSpec) bool {
+		return len(c.Query.Sels) == 1 && c.Query.Sels[0].Expr == nil
+	}},
+	{"selector_chain_of_three_loses_operand", func(r *Rules) { r.ChainDrop = true }, func(c *caseSpec) bool { return len(c.Query.Sels) >= 3 }},
+	{"selector_and_is_rowwise_intersect_of_spans", func(r *Rules) { r.SpanIntersect = true }, func(c *caseSpec) bool {
+		for _, op := range c.Query.Ops {
+			if op == "&&" {
+				return true
+			}
+		}
+		return false
+	}},
 	{"attr_expr_and_then_or_without_parens_right_nested", func(r *Rules) { r.RightAssoc = true }, func(c *caseSpec) bool {
 		for _, s := range c.Query.Sels {
 			ops := map[string]bool{}
@@ -232,19 +248,6 @@ var deviants = []struct {
 		}
 		return false
 	}},
-	{"selector_and_is_rowwise_intersect_of_spans", func(r *Rules) { r.SpanIntersect = true }, func(c *caseSpec) bool {
-		for _, op := range c.Query.Ops {
-			if op == "&&" {
-				return true
-			}
-		}
-		return false
-	}},
-	{"selector_chain_of_three_loses_operand", func(r *Rules) { r.ChainDrop = true }, func(c *caseSpec) bool { return len(c.Query.Sels) >= 3 }},
-	{"empty_selector_candidates_preselected_differently_from_span_read", func(r *Rules) { r.EmptyEdge = true }, func(c *caseSpec) bool {
-		return len(c.Query.Sels) == 1 && c.Query.Sels[0].Expr == nil
-	}},
-	{"complex_path_moves_window_start_to_earliest_found_trace", func(r *Rules) { r.PortionFrom = true }, func(c *caseSpec) bool { return portionsOf(c.Mode) > 0 }},
 }
 
 var edgeVariants = []edges{{false, false}, {false, true}, {true, false}, {true, true}}
@@ -592,6 +595,14 @@ func main() {
 	dbs, cases := plan(cfg)
 	fmt.Fprintf(os.Stderr, "[C11] planned %d cases on %d databases in %.1fs\n", len(cases), len(dbs), time.Since(t0).Seconds())
 	quietStderr()
+	if os.Getenv("C11_PLAN_ONLY") != "" {
+		fam := map[string]int{}
+		for _, c := range cases {
+			fam[c.Family+"/"+c.API+"/"+c.Mode]++
+		}
+		fmt.Println(fam)
+		return
+	}
 	if r.Seed != 0 && len(cases) > 0 {
 		k := r.Seed % len(cases)
 		if k < 0 {
